@@ -39,6 +39,7 @@ type Engine struct {
 	openKF     map[string]bool
 	loadTime   time.Duration
 	overlay    map[string][]byte
+	bounds     map[string]int
 }
 
 // overlayFiles maps every file under overlayDir to the same relative path in /repo.
@@ -113,8 +114,14 @@ func NewEngine(patterns []string) (*Engine, error) {
 	return e, nil
 }
 
+func isTestSupportPkg(path string) bool {
+	return strings.HasPrefix(path, modPath) && (strings.HasSuffix(path, "/test") || strings.Contains(path, "/test/"))
+}
+
 func initAllowed(path string) bool {
 	switch {
+	case isTestSupportPkg(path):
+		return false
 	case strings.HasPrefix(path, modPath+"/wire/net/libp2p"):
 		return false
 	case path == modPath || strings.HasPrefix(path, modPath+"/"):
@@ -151,6 +158,7 @@ type HarnessResult struct {
 	SchedChoices int
 	TimersFired  int
 	MaxDepth     int
+	Observes     []ObsRec
 }
 
 type ExploreOpts struct {
@@ -236,6 +244,9 @@ func (e *Engine) Explore(h *ssa.Function, opts ExploreOpts) *HarnessResult {
 						hr.Reached[l] = w
 					}
 				}
+				if opts.Vector != nil {
+					hr.Observes = append(hr.Observes, pr.Observes...)
+				}
 				for l, n := range pr.AssertsOK {
 					hr.AssertsOK[l] += n
 				}
@@ -283,7 +294,7 @@ func (e *Engine) runPath(h *ssa.Function, prefix []int64, solver *Solver, opts E
 		prefix:  append([]int64(nil), prefix...),
 		globals: map[*ssa.Global]*Object{},
 		maxStep: e.maxStep, res: pr, openKF: e.openKF,
-		hashers: map[*Object]*hasherState{}, bigLens: map[int]int{},
+		hashers: map[*Object]*hasherState{}, bigLens: map[int]int{}, nonNeg: map[int]bool{},
 		harness: h.Name(), vector: opts.Vector, schedChoice: opts.SchedChoice,
 	}
 	solver.BeginPath()
